@@ -22,6 +22,7 @@ func init() {
 			// the histories quantified over include restarts: the record must survive them
 			c.SyncOption("C03")
 			c.WhoWrites("C03")
+			c.ForkJoinRules("C03") // rule evaluation finishes (and records) before RunRules returns and the key locks are released
 			c.BadgerBufferDiscipline("C11")
 		},
 		Explanation: "Structural obligations whose conjunction implies that a stored attestation watermark (S,T) bounds every released attestation and that a new one is approved only if it neither double-votes nor surrounds/is surrounded: see DESIGN.md §5 C01.",
